@@ -150,8 +150,9 @@ func TestVerifReplayTypes(t *testing.T) {
 						if !okRb {
 							fail(fn, "rolls_back_once", in, fmt.Sprintf("timerStopped=%v rollbacks=%d", stopped, len(rb.calls)))
 						}
-						if (err == nil) != (tm.transaction == nil) || (err == nil) == rbFails {
-							fail(fn, "slot_follows_rollback_result", in, fmt.Sprintf("err=%v slotCleared=%v", err, tm.transaction == nil))
+						// the timer is stopped by then: the slot is released whatever the rollback returns, and the error is passed on
+						if tm.transaction != nil || (err == nil) == rbFails {
+							fail(fn, "slot_released_whatever_the_rollback_returns", in, fmt.Sprintf("err=%v slotCleared=%v", err, tm.transaction == nil))
 						}
 					}
 					if !vrTimerStopped(tr.timer) {
